@@ -212,6 +212,11 @@ def in_memory(ctx, specs, tmpdir, cspecs=()):
     modname = "zq_mem_{}_{}".format(os.getpid(), ctx.evaluations)
     header = "from typing import *\nimport json\n\nclass _S(type):\n    def __call__(c,*a,**k): return None\n    def __getattr__(c,n):\n        if n.startswith('__'): raise AttributeError(n)\n        return _S(n,(),{})\nnp=_S('np',(),{})\ntf=_S('tf',(),{})\ntorch=_S('torch',(),{})\npathlib=_S('pathlib',(),{})\ndef make_thing(*a): return None\n\n"
     static = [s for s in specs if s.kind == "static"]
+    future = ctx.evaluations % 2 == 1
+    if future:
+        # annotations are plain strings in such a module
+        header = "from __future__ import annotations\n" + header
+        ctx.feature("live_objects_from_a_module_with_future_annotations")
     src = header + "\n\n".join(s.src.replace("def f_target(", "def f_target_{}(".format(i)) for i, s in enumerate(static))
     for j, c in enumerate(cspecs):
         src += "\n\n" + c.src.replace("class {}(".format(c.name), "class {}_{}(".format(c.name, j), 1)
@@ -224,7 +229,7 @@ def in_memory(ctx, specs, tmpdir, cspecs=()):
             fn = getattr(mod, "f_target_{}".format(i))
             base = {"op": OP, "kind": "function", "via": "memory", "fn_kind": s.kind, "doc_style": s.style, "doc_mode": s.doc_mode,
                     "doc_order": s.order, "has_doc": s.has_doc, "partial_pos_defaults": _partial(s),
-                    "some_doc_states_default": any(p.get("doc_states_default") for p in s.params)}
+                    "some_doc_states_default": any(p.get("doc_states_default") for p in s.params), "future_annotations": future}
             replay = {"src": s.src, "via": "memory"}
             ctx.case(spec_sig(s) + ("memory",), nontrivial=bool(s.params))
             try:
